@@ -106,10 +106,21 @@ def check_list_handlers(ctx):
         ctx.ob("C13.P1", q, ok, "exactly one reply element is appended per requested id on every path" if ok else
                f"reply elements appended to `{resp}` per requested id: {counts}{' (also appends to ' + str(other_lists) + ')' if other_lists else ''} - an id is skipped or answered twice, so the reply no longer lines up with the request", key="one-per-id", where=f.where)
         # known / unknown branches
+        cases = []
         for n, call in apps:
-            known = cnd.holds(cfg, n, f"{loopvar} in {table}")
-            unknown = cnd.holds(cfg, n, f"{loopvar} not in {table}")
             arg = call.args[0]
+            here = (cnd.holds(cfg, n, f"{loopvar} in {table}"), cnd.holds(cfg, n, f"{loopvar} not in {table}"))
+            if isinstance(arg, ast.Name) and not any(here):
+                # the element was built in a local on the two branches and appended after the join: judge each value it
+                # may hold under the conditions of its assignment
+                for value, conds in rules.reaching_values(fn, cfg, n, arg):
+                    fs = set()
+                    for t, v in conds:
+                        fs |= cnd.canon(t, v)
+                    cases.append((n, value, ((f"{loopvar} in {table}", True) in fs, (f"{loopvar} in {table}", False) in fs)))
+            else:
+                cases.append((n, arg, here))
+        for n, arg, (known, unknown) in cases:
             if unknown:
                 ok = _is_empty_form(arg, loopvar)
                 ctx.ob("C13.P1", q, ok, "an unknown id is answered with the empty-item form" if ok else f"unknown id is answered with `{norm(arg)[:80]}`", key="unknown-form", where=f.where)
@@ -289,6 +300,8 @@ def check_alarms(ctx):
         ctx.ob("C13.P3", q, ok, "nothing is sent when the alarm already is in the requested state" if ok else "S5F1 can be sent although the set state does not change", key="only-on-change", where=f.where)
         # body
         a0 = c.args[0] if c.args else None
+        if isinstance(a0, ast.Name):
+            a0 = rules.expand_ast(fn, a0)  # the report built in a local first
         sf_ok = isinstance(a0, ast.Call) and isinstance(a0.func, ast.Call) and [norm(x) for x in a0.func.args] == ["5", "1"] and a0.args and isinstance(a0.args[0], ast.Dict)
         body = {k.value: v for k, v in zip(a0.args[0].keys, a0.args[0].values)} if sf_ok else {}
         alcd = norm(body.get("ALCD")) if "ALCD" in body else ""
@@ -315,7 +328,7 @@ def check_alarms(ctx):
         tgt = norm(w.ast.targets[0])
         key = tgt[tgt.index("[") + 1:tgt.rindex("]")] if "[" in tgt else None
         known = key is not None and any(t in (f"{key} in self._alarms", f"{key} in self.alarms") and pol for t, pol in cnd.facts(cfg, w))
-        val = norm(w.ast.value)
+        val = rules.expand(fn, w.ast.value)  # through a local, if the comparison was given a name
         ok = known and "ALED.get() == " in val and "ALED.ENABLE" in val and tgt in (f"self.alarms[{key}].enabled", f"self._alarms[{key}].enabled") and "ALID" in rules.expand(fn, ast.parse(key, mode="eval").body)
     ctx.ob("C13.P3", f.qualname, ok, "S5F3 sets the enabled flag of the named, known alarm from ALED" if ok else "S5F3 does not set exactly the named known alarm's enabled flag from ALED == ENABLE", key="s5f3-write", where=f.where)
     errs = [n for n in cfg.real_nodes() if isinstance(n.ast, ast.Assign) and "ACKC5.ERROR" in norm(n.ast.value)]
